@@ -12,8 +12,8 @@
   and every specified scalar is the same closed leaf (`untouched_preserved_extend_protected`).
   MISSING for the full statement — exactly the members, union members, types and directives the extension document ADDS
   (`buildFields` / `buildArgs` / `buildNewTypes` / `buildNewDirs`: they resolve names through the same registry, so they are
-  closed iff the document only uses defined names — `ExtOK`), the rebuilt directives' argument references, and the root operation
-  references (`reRoot` of the result registry: closed by construction). Tied meanwhile by the correspondence (`closedB` of the
+  closed iff the document only uses defined names — `ExtOK`). The rebuilt directives of the source and the root operation references
+  are covered by `extend_closed_source_directives` and `extend_closed_roots`. Tied meanwhile by the correspondence (`closedB` of the
   model after every extension step = the identity check on the live objects) and by `extend_preserves_witness_fixed`.
 -/
 import PyGqlModel.Lemmas.HeapExtClosed
@@ -131,6 +131,50 @@ theorem extend_closed_kept_partial (cfg : Cfg) (hk : cfg.extKeepAll = true) (ext
     intro r0 hr0
     simp only [typeRefs, hku, List.all_eq_true] at hrefs
     exact hreg r0 (hrefs r0 hr0)
+
+/-- … every directive of the source: the result registers under its name a rebuilt directive whose argument type references are
+    the registered objects -/
+theorem extend_closed_source_directives (cfg : Cfg) (hk : cfg.extKeepAll = true) (ext : Ext) (s : Schema) (h : Heap)
+    (hc : closedB h s = true) (hw : wfB h s = true) (hnd : (s.dirs.map (·.1)).Nodup) (e : String × Addr) (he : e ∈ s.dirs) :
+    ∃ a', lookup (extend cfg ext s h).2.dirs e.1 = some a' ∧
+      dirClosed (extend cfg ext s h).1 (extend cfg ext s h).2.types a' = true := by
+  have w := wfs_of_closedB hc hw
+  have hreg : ∀ r, refOK s.types r = true → (lookup (extend cfg ext s h).2.types r.name).isSome = true := fun r hr =>
+    extend_registers_source_names cfg hk ext s h w.nodup r.name (name_of_lookup (refOK_lookup hr))
+  have hread : ∀ e, e ∈ s.dirs → ∃ d, h.readDir e.2 = some d ∧ ∀ x, x ∈ d.args → ∃ g, h.readArg x = some g := by
+    intro e' he'
+    have hs := w.dirs e' he'
+    simp only [dirShape] at hs
+    split at hs
+    · rename_i d hd
+      simp only [List.all_eq_true] at hs
+      exact ⟨d, hd, fun x hx => by obtain ⟨g, hg, _⟩ := (argShape_iff _ h x).mp (hs x hx); exact ⟨g, hg⟩⟩
+    · cases hs
+  obtain ⟨a', h1, _, _, d, d', r1, r2, _, _, _, hargs⟩ := extend_dir_full_reg cfg hk ext s h w.nodup hnd hread e he
+  refine ⟨a', h1, ?_⟩
+  have hs := w.dirs e he
+  simp only [dirShape, r1, List.all_eq_true] at hs
+  simp only [dirClosed, dirShape, r2, List.all_eq_true]
+  exact all2_argRelB_closed hreg hs hargs
+
+/-- … and the root operation references are the registered objects (by construction: `reRoot` of the result's registry) -/
+theorem extend_closed_roots (cfg : Cfg) (hk : cfg.extKeepAll = true) (ext : Ext) (s : Schema) (h : Heap) :
+    rootOK (refOK (extend cfg ext s h).2.types) (extend cfg ext s h).2.query = true ∧
+    rootOK (refOK (extend cfg ext s h).2.types) (extend cfg ext s h).2.mutation = true ∧
+    rootOK (refOK (extend cfg ext s h).2.types) (extend cfg ext s h).2.subscription = true := by
+  have key : ∀ (reg : List (String × Addr)) (r : Option Ref), rootOK (refOK reg) (reRoot reg r) = true := by
+    intro reg r
+    cases r with
+    | none => rfl
+    | some r =>
+      simp only [reRoot, Option.bind_some]
+      cases hl : lookup reg r.name with
+      | none => rfl
+      | some a => simp [rootOK, refOK, hl]
+  obtain ⟨q, m, su, _⟩ := untouched_preserved_extend_schema_level cfg hk ext s h
+  rw [q, m, su]
+  exact ⟨key _ _, key _ _, key _ _⟩
+
 
 /-- non-vacuity on the witness (`Dog implements Pet` keeps its interface reference closed through `type Zed {z: String}`) -/
 example : closedB h0 s0 = true ∧ wfB h0 s0 = true ∧ (∀ e, e ∈ zed.newTypes → e.1 ∉ names s0) ∧ (("Dog", 3) ∈ s0.types) ∧
